@@ -32,7 +32,8 @@ Fixpoint dec_digits (fuel : nat) (n : N) (acc : string) : string :=
       let acc' := String (ascii_of_N (48 + d)) acc in
       if N.eqb q 0 then acc' else dec_digits f q acc'
   end.
-Definition string_of_N (n : N) : string := dec_digits 40 n EmptyString.
+(** fuel: a number has no more decimal digits than binary digits *)
+Definition string_of_N (n : N) : string := dec_digits (S (N.size_nat n)) n EmptyString.
 Definition string_of_Z (z : Z) : string :=
   match z with
   | Z0 => "0"
